@@ -335,6 +335,7 @@ func cmdCluster(args []string) int {
 	nMax := fs.Int("nmax", 5, "")
 	noByz := fs.Bool("nobyz", false, "no Byzantine members, no adversary")
 	only := fs.Int("only", -1, "generate only this run index (replay)")
+	lone := fs.Bool("lone", false, "ONE correct node; every other member's key is held by the adversary, so each guard of the node is reachable one deviation at a time (only per-node properties are meaningful)")
 	fs.Parse(args)
 	out := newNdjson(*outPath)
 	defer out.close()
@@ -353,6 +354,16 @@ func cmdCluster(args []string) int {
 		if *noByz {
 			byz = nil
 			pol.byz, pol.mutate, pol.garbage = 0, 0, 0
+		}
+		if *lone {
+			keep := rnd.Intn(n)
+			byz = nil
+			for j := 0; j < n; j++ {
+				if j != keep {
+					byz = append(byz, j)
+				}
+			}
+			pol = policy{deliver: 15, dup: 6, drop: 1, timeout: 6, byz: 52, mutate: 18, garbage: 1, sync: 1, fifo: 50}
 		}
 		cl := newCluster(ws, byz, 1, rnd.Intn(2) == 0)
 		cl.lenient = rnd.Intn(4) == 0
